@@ -23,11 +23,14 @@ Fixpoint mr_eqb (a b : mr) {struct a} : bool :=
             end) c c'
   end.
 
+Definition is_dangling (p : panic) : bool :=
+  match p with PDangling _ | PDanglingBracket => true | _ => false end.
+
 Definition res_eqb (a b : res mr) : bool :=
   match a, b with
   | ROk x, ROk y => mr_eqb x y
   | RErr, RErr => true
-  | RPanic, RPanic => true
+  | RPanic p, RPanic q => Bool.eqb (is_dangling p) (is_dangling q)   (* same class of abort *)
   | _, _ => false
   end.
 
